@@ -31,6 +31,7 @@ type recLine struct {
 	Kids map[string][]string `json:"kids"`
 	Doc  string              `json:"doc,omitempty"`
 	Look string              `json:"look,omitempty"` // dump mode: a member named almost like signatures / unsigned
+	Lone bool                `json:"lone,omitempty"` // dump mode: a member holds a text with a lone surrogate escape put into it
 }
 
 var strRunes = []rune{'a', 'b', 'Z', '0', ' ', '"', '\\', '/', '\b', '\f', '\n', '\r', '\t', 0x00, 0x1f, 0x7f, 0x80, 0xe9, 0x301,
@@ -255,8 +256,13 @@ func (r *recRun) act() (string, []string, *stepFailure) {
 			absent = append(absent, l)
 		}
 	}
+	raw := hasRaw(r.d.top)
 	for {
 		switch x := rng.Intn(100); {
+		case x < 35 && raw:
+			// what the canonical form of an ill-formed text is, is not the property's business: such texts only
+			// appear here as tampering of something signed, never as something that gets signed
+			continue
 		case x < 25:
 			e, k, p := "E"+strconv.Itoa(1+rng.Intn(3)), "K"+strconv.Itoa(1+rng.Intn(3)), "P"+strconv.Itoa(1+rng.Intn(4))
 			if f := r.d.libSign(r.w.ent[e], r.w.kid[k], r.w.priv[p]); f != nil {
@@ -277,6 +283,11 @@ func (r *recRun) act() (string, []string, *stepFailure) {
 			l := present[rng.Intn(len(present))]
 			r.remember(l)
 			v := r.another(l, r.d.top[r.name[l]], true)
+			if t, ok := tamperSurrogate(r.d.top[r.name[l]], rng); ok && rng.Intn(2) == 0 {
+				v = t // the same text with one character outside the BMP in an ill-formed escape spelling
+			} else if t, ok := tamperLone(r.d.top[r.name[l]], rng); ok && rng.Intn(6) == 0 {
+				v = t // the same text with a lone surrogate escape put into one of its strings
+			}
 			r.d.top[r.name[l]] = v
 			r.d.rerender(rng)
 			return "Mutate", []string{l, r.id(v), ""}, nil
@@ -310,7 +321,12 @@ func (r *recRun) act() (string, []string, *stepFailure) {
 			}
 			l := nested[rng.Intn(len(nested))]
 			r.remember(l)
-			v := editInside(rng, r.d.top[r.name[l]].(map[string]interface{}))
+			var v interface{} = editInside(rng, r.d.top[r.name[l]].(map[string]interface{}))
+			if t, ok := tamperSurrogate(r.d.top[r.name[l]], rng); ok && rng.Intn(2) == 0 {
+				v = t // a nested string or member name respelled ill-formed
+			} else if t, ok := tamperLone(r.d.top[r.name[l]], rng); ok && rng.Intn(6) == 0 {
+				v = t
+			}
 			r.d.top[r.name[l]] = v
 			r.d.rerender(rng)
 			return "NestedEdit", []string{l, r.id(v), ""}, nil
@@ -363,6 +379,7 @@ func recordRun(seed int64, run int, dump bool, emit func(*recLine), fail func(hx
 	r.d.rerender(rng)
 
 	line := func(step int, op string, p []string) bool {
+		r.d.loneInvolved = r.d.loneInvolved || hasLone(r.d.top)
 		obs := r.w.observe(r.d.bytes)
 		if obs.Panic != "" {
 			fail(hx.Result{OK: false, Key: r.d.key("verify/panic/after=" + op), What: obs.Panic + " on " + string(r.d.bytes),
@@ -381,6 +398,7 @@ func recordRun(seed int64, run int, dump bool, emit func(*recLine), fail func(hx
 		if dump {
 			l.Doc = string(r.d.bytes)
 			l.Look = r.d.lookalike()
+			l.Lone = r.d.loneInvolved || hasLone(r.d.top)
 		}
 		emit(l)
 		return true
